@@ -15,7 +15,8 @@ class BaseStrategyMode(object):
         raise NotImplementedError()
 
     def annotate_class(self, a_triple):
-        self._instances_dict[a_triple[_S].iri].append(a_triple[_O].iri)
+        if a_triple[_O].iri not in self._instances_dict[a_triple[_S].iri]:  # A re-stated typing triple adds nothing
+            self._instances_dict[a_triple[_S].iri].append(a_triple[_O].iri)
 
     def annotation_post_parsing(self):
         pass  # By default, do nothing.
